@@ -203,9 +203,15 @@ func H_C17_paths() {
 //gosym:reach present,absent
 func H_C17_commaOk() {
 	has := ndBool("has")
-	kind := ndChoice("kind", 6)
+	kind := ndChoice("kind", 7)
 	vars := make(VarMap)
 	switch kind {
+	case 6: // round 8: present key holding a nil value of a non-empty interface type
+		m := map[string]error{}
+		if has {
+			m["k"] = nil
+		}
+		vars.Set("m", m)
 	case 0:
 		m := map[string]int{}
 		if has {
